@@ -181,13 +181,21 @@ Qed.
 
 (* ================================================================ the whole command line *)
 Definition binding_ok (b : binding) : Prop := b_prefix b <> Some "" /\ b_isep b <> Some "".
-Definition input_ok (i : input) : Prop :=
+(* [shell]: the tool has ShellCommandRequirement.  An ARRAY input bound without valueFrom / itemSeparator must not say
+   shellQuote: false under it: cwltool would still quote the items (fresh item bindings), StreamFlow would not. *)
+Definition input_ok (shell : bool) (i : input) : Prop :=
   name_ok (i_name i) /\
   match i_bind i with
   | None => True
-  | Some b => binding_ok b /\ (i_arr i = true -> b_quote b <> None)   (* arrays write shellQuote explicitly *)
+  | Some b => binding_ok b /\
+              (i_arr i = true -> b_vf b = VfNone -> b_isep b = None -> quoted shell b = true)
   end.
-Definition tool_ok (t : tool) : Prop := Forall binding_ok (t_args t) /\ Forall input_ok (t_inputs t).
+Definition tool_ok (t : tool) : Prop :=
+  Forall binding_ok (t_args t) /\ Forall (input_ok (t_shell t)) (t_inputs t).
+(* the input object respects the declared types as far as arrays go *)
+Definition input_typed (j : job) (i : input) : Prop :=
+  i_arr i = false -> forall l, lookup j (i_name i) <> Arr l.
+Definition job_typed (t : tool) (j : job) : Prop := Forall (input_typed j) (t_inputs t).
 
 Definition key_of (k : skey) : Z * option string :=
   match k with KArg p _ => (p, None) | KIn p n => (p, Some n) end.
@@ -217,18 +225,35 @@ Qed.
 Lemma render_pieces q l : map render (map (fun s => (s, q)) l) = map (q_str q) l.
 Proof. rewrite map_map. apply map_ext. intros s. reflexivity. Qed.
 
+Lemma gen_pieces_uniform q b v :
+  items_fresh b v = false \/ q = true -> spec_gen_pieces q b v = map (fun s => (s, q)) (spec_generate b v).
+Proof.
+  intros H. unfold spec_gen_pieces. destruct (items_fresh b v) eqn:E; [|reflexivity].
+  destruct H as [H| ->]; [discriminate|].
+  unfold items_fresh in E. unfold spec_generate, spec_pre.
+  destruct (b_vf b); try discriminate. destruct (b_isep b); try discriminate.
+  destruct v as [?|[|x l]]; try discriminate. rewrite map_app. reflexivity.
+Qed.
+
 (* one binding: no entry on either side, or one entry on each, related *)
 Lemma entry_equiv k q f b v name :
-  binding_ok b -> flags_q f = q -> key_of k = (b_pos b, name) ->
-  Forall2 Rel (spec_entry k q (spec_generate b v))
+  binding_ok b -> flags_q f = q -> key_of k = (b_pos b, name) -> items_fresh b v = false \/ q = true ->
+  Forall2 Rel (spec_entry k (spec_gen_pieces q b v))
               (match sf_bind f b v with Some l => [(name, b_pos b, l)] | None => [] end).
 Proof.
-  intros [Hp Hs] Hq Hk. pose proof (bind_equiv f b v Hp Hs) as H.
+  intros [Hp Hs] Hq Hk Hf. rewrite (gen_pieces_uniform _ _ _ Hf). pose proof (bind_equiv f b v Hp Hs) as H.
   destruct (sf_bind f b v) as [l|].
   - destruct H as [Hne Hm]. unfold spec_entry. destruct (spec_generate b v) as [|s r] eqn:E; [congruence|].
-    constructor; [|constructor]. split; [cbn; symmetry; exact Hk|].
-    cbn [snd]. rewrite render_pieces, Hm, Hq. reflexivity.
+    cbn [map]. constructor; [|constructor]. split; [cbn; symmetry; exact Hk|].
+    cbn [snd]. change ((s, q) :: map (fun s0 => (s0, q)) r) with (map (fun s0 => (s0, q)) (s :: r)).
+    rewrite render_pieces, Hm, Hq. reflexivity.
   - rewrite H. constructor.
+Qed.
+
+Lemma fresh_scalar_vf b j self : b_vf b <> VfNone \/ self = Sc VNull -> items_fresh b (eval_vf b j self) = false.
+Proof.
+  unfold items_fresh, eval_vf. intros [H| ->]; destruct (b_vf b); try congruence; try reflexivity;
+    destruct (b_isep b); reflexivity.
 Qed.
 
 Lemma args_rel t j : forall l i, Forall binding_ok l ->
@@ -236,24 +261,30 @@ Lemma args_rel t j : forall l i, Forall binding_ok l ->
 Proof.
   induction l as [|b r IH]; intros i Hok; [constructor|].
   inversion Hok; subst. cbn [spec_args flat_map]. apply Forall2_app; [|apply IH; assumption].
-  unfold sf_arg_token. apply entry_equiv; [assumption|reflexivity|reflexivity].
+  unfold sf_arg_token. apply entry_equiv; [assumption|reflexivity|reflexivity|].
+  left. apply fresh_scalar_vf. right. reflexivity.
 Qed.
 
-Lemma inputs_rel t j : forall l, Forall input_ok l ->
+Lemma inputs_rel t j : forall l, Forall (input_ok (t_shell t)) l -> Forall (input_typed j) l ->
   Forall2 Rel (flat_map (spec_input t j) l) (flat_map (sf_input_token t j) l).
 Proof.
-  induction l as [|i r IH]; intros Hok; [constructor|].
-  inversion Hok as [|? ? [_ Hi] Hr]; subst. cbn [flat_map]. apply Forall2_app; [|apply IH; assumption].
+  induction l as [|i r IH]; intros Hok Hty; [constructor|].
+  inversion Hok as [|? ? [_ Hi] Hr]; subst. inversion Hty as [|? ? Ht Htr]; subst.
+  cbn [flat_map]. apply Forall2_app; [|apply IH; assumption].
   unfold spec_input, sf_input_token. destruct (i_bind i) as [b|]; [|constructor].
   destruct Hi as [Hb Hq]. cbn zeta. destruct (is_null (lookup j (i_name i))); [constructor|].
-  apply entry_equiv; [assumption| |reflexivity].
-  unfold flags_q, sf_input_flags, quoted. destruct (i_arr i); [|reflexivity].
-  destruct (b_quote b); [reflexivity|]. exfalso. apply Hq; reflexivity.
+  apply entry_equiv; [assumption|reflexivity|reflexivity|].
+  destruct (items_fresh b (eval_vf b j (lookup j (i_name i)))) eqn:E; [right|left; reflexivity].
+  unfold items_fresh, eval_vf in E. destruct (b_vf b) eqn:V; try discriminate.
+  destruct (b_isep b) eqn:S; try discriminate.
+  destruct (lookup j (i_name i)) as [?|l] eqn:L; try discriminate.
+  unfold flags_q, sf_input_flags, quoted in *. cbn [fst snd].
+  destruct (i_arr i) eqn:A; [apply Hq; reflexivity|]. exfalso. apply (Ht A l). exact L.
 Qed.
 
 Definition Ekey (x y : skey * list piece) : Prop := earlier (fst x) (fst y).
 
-Lemma spec_entry_in e k q l : In e (spec_entry k q l) -> fst e = k.
+Lemma spec_entry_in e k l : In e (spec_entry k l) -> fst e = k.
 Proof. unfold spec_entry. destruct l; [intros []|]. intros [<-|[]]. reflexivity. Qed.
 
 Lemma args_keys t j : forall l i e, In e (spec_args t j i l) -> exists p k, fst e = KArg p k /\ (i <= k)%N.
@@ -266,12 +297,12 @@ Qed.
 Lemma args_ord t j : forall l i, ordpairs Ekey (spec_args t j i l).
 Proof.
   induction l as [|b r IH]; intros i; [exact I|]. cbn [spec_args]. apply ordpairs_app; [|apply IH|].
-  - unfold spec_entry. destruct (spec_generate _ _); simpl; auto.
+  - unfold spec_entry. destruct (spec_gen_pieces _ _ _); simpl; auto.
   - intros x y Hx Hy. apply spec_entry_in in Hx. destruct (args_keys _ _ _ _ _ Hy) as (p & k & E & L).
     unfold Ekey. rewrite Hx, E. cbn. lia.
 Qed.
 
-Lemma inputs_keys t j : forall l e, Forall input_ok l -> In e (flat_map (spec_input t j) l) ->
+Lemma inputs_keys t j : forall l e, Forall (input_ok (t_shell t)) l -> In e (flat_map (spec_input t j) l) ->
   exists p n, fst e = KIn p n /\ name_ok n.
 Proof.
   induction l as [|i r IH]; intros e Hok H; [destruct H|]. inversion Hok as [|? ? [Hn _] Hr]; subst.
@@ -287,11 +318,12 @@ Proof.
   destruct (H y (or_intror Hy)) as (p' & n' & E' & _). unfold Ekey. rewrite E, E'. exact I.
 Qed.
 
-Lemma bindings_ord2 t j : tool_ok t -> ord2 spec_lt fst sf_lt tok_key Rel (spec_bindings t j) (sf_tokens t j).
+Lemma bindings_ord2 t j : tool_ok t -> job_typed t j ->
+  ord2 spec_lt fst sf_lt tok_key Rel (spec_bindings t j) (sf_tokens t j).
 Proof.
-  intros [Ha Hi]. apply ord2_from with (E := Ekey).
+  intros [Ha Hi] Hty. apply ord2_from with (E := Ekey).
   - intros; apply lt_agree; assumption.
-  - apply Forall2_app; [apply args_rel; exact Ha|apply inputs_rel; exact Hi].
+  - apply Forall2_app; [apply args_rel; exact Ha|apply inputs_rel; [exact Hi|exact Hty]].
   - apply ordpairs_app; [apply args_ord|apply kin_ord; intros; eapply inputs_keys; eauto|].
     intros x y Hx Hy. destruct (args_keys _ _ _ _ _ Hx) as (p & k & E & _).
     destruct (inputs_keys _ _ _ _ Hi Hy) as (p' & n & E' & Hn). unfold Ekey. rewrite E, E'. exact Hn.
@@ -302,12 +334,11 @@ Lemma rel_flat l1 l2 : Forall2 Rel l1 l2 ->
 Proof. induction 1 as [|x y r1 r2 [_ H] _ IH]; simpl; [reflexivity|]. rewrite H, IH. reflexivity. Qed.
 
 (* StreamFlow hands the shell exactly the reference text: for every tool of the modelled language whose bindings
-   have non-empty prefix / itemSeparator, whose input names sort after argument indexes and whose ARRAY inputs write
-   shellQuote, and for every input object (any strings, any array lengths, any number of bindings and ties). *)
-Theorem line_equiv t j : tool_ok t -> sf_line t j = spec_line t j.
+   have non-empty prefix / itemSeparator and whose input names sort after argument indexes, and for every input object (any strings, any array lengths, any number of bindings and ties). *)
+Theorem line_equiv t j : tool_ok t -> job_typed t j -> sf_line t j = spec_line t j.
 Proof.
-  intros Hok. unfold sf_line, spec_line, sf_cmd, spec_pieces, sf_sorted.
-  pose proof (isort2 _ _ _ _ _ _ _ (bindings_ord2 t j Hok)) as HS. apply rel_flat in HS.
+  intros Hok Hty. unfold sf_line, spec_line, sf_cmd, spec_pieces, sf_sorted.
+  pose proof (isort2 _ _ _ _ _ _ _ (bindings_ord2 t j Hok Hty)) as HS. apply rel_flat in HS.
   rewrite map_app, map_flat_map, render_pieces.
   match goal with |- join _ (_ ++ ?a) = join _ (_ ++ ?b) => assert (Hab : a = b) by (symmetry; exact HS) end.
   rewrite Hab. clear Hab HS.
@@ -334,9 +365,10 @@ Definition quotes_all (t : tool) : Prop := forall b, In b (all_bindings t) -> qu
 Lemma nonshell_quotes_all t : t_shell t = false -> quotes_all t.
 Proof. intros H b _. unfold quoted. rewrite H. reflexivity. Qed.
 
-Lemma entry_quoted k q l e : q = true -> In e (spec_entry k q l) -> forallb snd (snd e) = true.
+Lemma entry_quoted k q b v e : q = true -> In e (spec_entry k (spec_gen_pieces q b v)) -> forallb snd (snd e) = true.
 Proof.
-  intros -> H. unfold spec_entry in H. destruct l as [|s r]; [destruct H|]. destruct H as [<-|[]].
+  intros -> H. rewrite gen_pieces_uniform in H by (right; reflexivity).
+  unfold spec_entry in H. destruct (spec_generate b v) as [|s r]; [destruct H|]. destruct H as [<-|[]].
   cbn [snd]. induction (s :: r); [reflexivity|]. simpl. assumption.
 Qed.
 
@@ -366,8 +398,23 @@ Proof.
 Qed.
 
 (* the tool process receives the reference argv, whatever the strings are *)
-Theorem argv_equiv t j : tool_ok t -> quotes_all t -> sf_argv t j = Some (spec_argv t j).
+Theorem argv_equiv t j : tool_ok t -> job_typed t j -> quotes_all t -> sf_argv t j = Some (spec_argv t j).
 Proof.
-  intros Hok Hq. unfold sf_argv. rewrite line_equiv by exact Hok. unfold spec_line, spec_argv.
+  intros Hok Hty Hq. unfold sf_argv. rewrite line_equiv by assumption. unfold spec_line, spec_argv.
   apply quoted_line_verbatim. apply pieces_quoted. exact Hq.
 Qed.
+
+(* ================================================================ stream defaults of execute() *)
+(* stderr not declared: create_command adds no stderr redirection when stdout goes to a file, and 2>&1 when
+   stdout is not redirected either (the captured output then carries both) *)
+Lemma stderr_unset_file f : let (o, e) := sf_streams (Some f) None in stderr_str o e = "".
+Proof. reflexivity. Qed.
+Lemma stderr_unset_nofile : let (o, e) := sf_streams None None in stderr_str o e = " 2>&1".
+Proof. reflexivity. Qed.
+Lemma stderr_target_spec so se : sf_stderr_target so se = se.
+Proof.
+  destruct so as [a|], se as [b|]; unfold sf_stderr_target, sf_streams; cbn; auto.
+  destruct (String.eqb_spec b a); [subst; reflexivity|reflexivity].
+Qed.
+Lemma stdout_target_spec so se : sf_stdout_target so se = so.
+Proof. destruct so; reflexivity. Qed.
